@@ -250,8 +250,11 @@ def evaluate(doc, markers, formulas, opts, rec, via='class'):
     mm = opts['math_mode']
     kc = opts['keep_comments']
     errs = []
+    # text filling may break a line inside a word that is longer than the remaining width: under fill_text a marker is looked
+    # for with all white space removed (which cannot create a marker that is not there: markers are unique words)
+    out_nows = re.sub(r'\s+', '', out) if opts.get('fill_text') else out
     for m in markers:
-        present = m['word'] in out
+        present = m['word'] in out or m['word'] in out_nows
         rec.hist('position', m['position'])
         f = formulas[m['formula']] if m['formula'] is not None else None
         if f is not None and f['env']:
@@ -290,7 +293,8 @@ def evaluate(doc, markers, formulas, opts, rec, via='class'):
                 errs.append(("formula marker %s appears with math_mode='remove' (%s)" % (m['word'], f['open']), 'remove-leak'))
         elif mm == 'verbatim':
             src = f['src']
-            ok = (src in out) or (opts.get('fill_text') and squash(src) in squash(out))
+            ok = (src in out) or (opts.get('fill_text') and (squash(src) in squash(out) or
+                                                             re.sub(r'\s+', '', src) in out_nows))
             if not ok:
                 errs.append(("source of formula %r is not contained unchanged with math_mode='verbatim'" % src,
                              'verbatim-altered'))
@@ -298,9 +302,12 @@ def evaluate(doc, markers, formulas, opts, rec, via='class'):
             if not present:
                 errs.append(("formula marker %s missing with math_mode='with-delimiters'" % m['word'], 'formula-lost'))
             else:
-                p = out.index(m['word'])
                 b, e = f['beginend']
-                if out.rfind(b, 0, p) < 0 or out.find(e, p) < 0:
+                text = out
+                if opts.get('fill_text'):
+                    text, b, e = out_nows, re.sub(r'\s+', '', b), re.sub(r'\s+', '', e)
+                p = text.index(m['word'])
+                if text.rfind(b, 0, p) < 0 or text.find(e, p) < 0:
                     errs.append(("formula %s does not keep its delimiters %r around its content with 'with-delimiters'"
                                  % (m['word'], (b, e)), 'delimiters-lost'))
         else:
